@@ -33,6 +33,40 @@ CHECKS = {
             'Trusted: Lean kernel; pandas aggregates (tied by cx.calc in the C07 check); reals are exact rationals '
             '(epsilon and bounds generated dyadic); re.match as a table. Two known findings (categorical columns).',
             'DESIGN.md 4 C02'),
+    'C03': ('Lean 4 theorems over a model of the rexpy batch pipeline + model/implementation correspondence',
+            'Kernel-checked theorems over a hand translation of Extractor\'s batch path (clean, coarse classification, '
+            'run-length encoding, merging, alignment, refinement of fragments, pruning): for every character table '
+            'consistent with re\'s \\w / \\d / \\s, every option record and every list of examples, every kept example '
+            'is matched in full (Matches, an independent denotation of pattern ASTs) by one of the returned patterns '
+            '(extract_sound); the fragment matcher is sound and complete; the coarse classes are sound. Constants, category '
+            'tables and class order are regenerated from the source on every run and tied by tie_* theorems; the model '
+            'reproduces rexpy.extract\'s output text exactly on every generated case that does not sample (all dialects, '
+            'tagging, extra letters, variable-length fragments). The sampling loop, the rendering and the Python reading of '
+            'the text are decided by the oracle (re.fullmatch of every example against every returned expression) over '
+            'exotic alphabets, all option subsets, tiny Size settings and seeds.',
+            'Trusted: Lean kernel; CPython re (character classes enter as a table, matching of rendered text is oracle-only); '
+            'sampling loop not modelled. Two known findings (non-ASCII decimal digits under portable / grep).',
+            'DESIGN.md 4 C03'),
+    'C13': ('Lean 4 theorems over a model of the rexpy batch pipeline + model/implementation correspondence',
+            'Kernel-checked theorems over the same model as C03: every pattern of a batch extraction matches at least one '
+            'kept example; there are never more patterns than distinct examples; an input with nothing kept gives no '
+            'pattern; max_patterns / min_strings_per_pattern only delete patterns of the batch result; every rendered '
+            'expression starts with ^ and ends with $. Tagging is not part of the pattern AST (only of its rendering), so '
+            'the same patterns are found either way; that the tagged text matches the same examples, compiles, and is not '
+            'repeated is decided by re.compile / re.fullmatch in the oracle. Model tied to rexpy.extract with pruning options '
+            'and both tag settings on every non-sampling case.',
+            'Trusted: Lean kernel; CPython re; the sampling loop (oracle only).',
+            'DESIGN.md 4 C13'),
+    'C14': ('Lean 4 theorems over a model of the rexpy batch pipeline + model/implementation correspondence (partial)',
+            'Kernel-checked theorems (batch path): a frequency dictionary and the list it stands for clean to the same '
+            'examples and give the same result; without pruning options frequencies are irrelevant and repeating an example '
+            'is a no-op; the model is a pure function of (table, options, examples) so a call cannot depend on history. '
+            'PARTIAL: invariance under reordering is not proved - the model is tied to the code on a permutation and the '
+            'dictionary form of every case and the oracle compares 5 permutations per case on the real code; seeds, '
+            'global PRNG state, sampling and the regex memo are runtime behaviour decided by the oracle only.',
+            'Trusted: Lean kernel; CPython set / dict iteration order for the run; PRNG. One fixed finding (first sample '
+            'drawn before seeding).',
+            'DESIGN.md 4 C14'),
     'C04': ('Lean 4 theorems over a line-by-line model of check_strings + model/implementation correspondence',
             'Kernel-checked theorem check_pass_iff: for every pair of line lists, every option record and every match '
             'relation for the ignore-patterns, the model of FilesComparison.check_strings passes exactly when the '
